@@ -16,7 +16,9 @@
 (* the property as stated.                                                         *)
 EXTENDS Naturals, FiniteSets, TLC
 
-CONSTANTS Defects
+CONSTANTS Defects,        \* defects / mutations present in the modelled implementation ({} = the property as stated)
+          ForeignNames    \* algorithm names of OTHER key families tried as replacement names (all of them in the
+                          \* thorough tier, one per family in the quick tier; same-family names are always tried)
 
 KnownDefects == {"ed_no_verify_key",   \* Ed25519Key(filename=..)/(file_obj=..) keeps _verifying_key = None
                  "ed_sig_length",      \* nacl VerifyKey.verify raises ValueError unless the blob has 64 bytes
@@ -56,6 +58,10 @@ RsaNames  == {"ssh-rsa", "rsa-sha2-256", "rsa-sha2-512"}
 OwnName(t) == CASE t = "ecdsa256" -> "ecdsa-sha2-nistp256" [] t = "ecdsa384" -> "ecdsa-sha2-nistp384"
                 [] t = "ecdsa521" -> "ecdsa-sha2-nistp521" [] t = "ed25519" -> "ssh-ed25519" [] OTHER -> "ssh-rsa"
 SignAlgs(t) == IF t = "rsa" THEN RsaNames ELSE {OwnName(t)}
+FamilyNames(t) == LET base == CASE Family(t) = "rsa" -> RsaNames
+                                [] Family(t) = "ecdsa" -> {"ecdsa-sha2-nistp256", "ecdsa-sha2-nistp384", "ecdsa-sha2-nistp521"}
+                                [] OTHER -> {"ssh-ed25519"}
+                  IN base \cup {CertOf[x] : x \in base}
 FixedHash(t) == CASE t = "ecdsa256" -> "sha256" [] t = "ecdsa384" -> "sha384" [] t = "ecdsa521" -> "sha512"
                   [] t = "ed25519" -> "ed25519" [] OTHER -> "sha1"
 RsaHash(n) == CASE n \in {"ssh-rsa", "ssh-rsa-cert-v01@openssh.com"}           -> "sha1"
@@ -90,7 +96,7 @@ Whys(t)    == CASE Family(t) = "rsa"     -> {"blob_empty", "blob_short", "blob_l
 HasAlias(t) == Family(t) # "ed25519"     \* RSA: leading zero bytes dropped; ECDSA: non-minimal mpint / trailing bytes
 Tampers(t, a) == {T(c) : c \in {"none", "alg_unknown", "alg_not_text", "blob_garbage", "frame", "trunc"}}
                  \cup {T(c) : c \in Whys(t)}
-                 \cup {TAlg(n) : n \in AllNames \ {a}}
+                 \cup {TAlg(n) : n \in (FamilyNames(t) \cup (ForeignNames \cap AllNames)) \ {a}}
                  \cup (IF HasAlias(t) THEN {T("blob_alias")} ELSE {})
 \* what a cut of the byte string can leave behind (the reader pads short reads with zeros or stops early)
 TruncBlobs(t) == {Garbage, Malformed("blob_empty")}
